@@ -162,10 +162,11 @@ func TestVerif_C14(t *testing.T) {
 		prevDbg := disableDebugGoroutines.Load()
 		disableDebugGoroutines.Store(true)
 		defer disableDebugGoroutines.Store(prevDbg)
-		c.Rule("a case = SETTINGS configuration (server/client max frame size, stream and connection windows, header table sizes, write scheduler, request before/after the SETTINGS exchange) x request shape (method, path, header set, body length, declared/undeclared length, body Read chunking, trailers incl. a trailer block > 16 kB that needs CONTINUATION) x response shape (status, 103, header set, body length, declared length, Write chunking, Flush, declared / TrailerPrefix trailers incl. a trailer block > 16 kB, handler order); header set 2 really exceeds one frame after Huffman coding, so the pairs with bodyless messages (HEAD, 204, 304, empty body) put HEADERS(END_STREAM)+CONTINUATION on the wire; parts: 'cover' = covering array of strength 2 (thorough: 3) over all 27 dimensions; 'request-product', 'response-product', 'header-product' = full products of the dimensions that interact in one direction; 'header-block-boundary' = for every position a header block can take (request headers of a bodyless request / followed by a body, request trailers, response headers followed by a body / of a response whose handler writes nothing / 204 / to HEAD, declared response trailers; thorough: and 304, TrailerPrefix trailers after flushed writes, request trailers sent while the response is under way) the block's encoded length is swept byte by byte from about 160 below to at least 8 above 16384 (thorough: and 32768, and with 16 MB frames allowed), the observed block lengths at distance <= 2 of the boundary and whether a HEADERS frame carried END_STREAM without END_HEADERS are recorded as outcomes; 'short-read' = base scenarios x every placement of <= 1 (thorough: <= 2) short reads (1 or 7 bytes) at every read index of either direction; 'graceful-goaway' = full product of {what makes the server send GOAWAY(NO_ERROR): http.Server.Shutdown / Server.IdleTimeout expiring} x {the request's HEADERS frame and everything after it is still unread by the server when it sends the GOAWAY, so the last-stream-id is below the request's stream / the handler is already running, the last-stream-id covers the stream} x {the request is stream 1 of a new connection / stream 3 after a completed exchange} x {no body / one-shot body (io.ReadCloser, no Request.GetBody, Close does not disturb later Reads) / the same with GetBody} x {which of the body's Read calls 0..3 (3 chunks, then EOF) is the one that returns only after the GOAWAY has reached the Transport, or none} x declared/undeclared length x trailers {0, 1; thorough: 20} x {250-byte body under a 1 MB window / 70001-byte body over a 65535-byte window, i.e. the Transport also waits for flow control}; here the client is Transport.RoundTrip with its own connection pool dialling up to 3 in-memory connections, each to a fresh Server instance with the same handler, so the Transport's retry on a new connection is inside the explored space. non-trivial = the exchange completed and all request and response observations were compared; distinct = distinct frame-type traces on the wire (both directions), distinct header block lengths, distinct truncating short-read placements")
+		c.Rule("a case = SETTINGS configuration (server/client max frame size, stream and connection windows, header table sizes, write scheduler, request before/after the SETTINGS exchange) x request shape (method, path, header set, body length, declared/undeclared length, body Read chunking, trailers incl. a trailer block > 16 kB that needs CONTINUATION) x response shape (status, 103, header set, body length, declared length, Write chunking, Flush, declared / TrailerPrefix trailers incl. a trailer block > 16 kB, handler order); header set 2 really exceeds one frame after Huffman coding, so the pairs with bodyless messages (HEAD, 204, 304, empty body) put HEADERS(END_STREAM)+CONTINUATION on the wire; parts: 'cover' = covering array of strength 2 (thorough: 3) over all 27 dimensions; 'request-product', 'response-product', 'header-product' = full products of the dimensions that interact in one direction; 'header-block-boundary' = for every position a header block can take (request headers of a bodyless request / followed by a body, request trailers, response headers followed by a body / of a response whose handler writes nothing / 204 / to HEAD, declared response trailers; thorough: and 304, TrailerPrefix trailers after flushed writes, request trailers sent while the response is under way) the block's encoded length is swept byte by byte from about 160 below to at least 8 above 16384 (thorough: and 32768, and with 16 MB frames allowed), the observed block lengths at distance <= 2 of the boundary and whether a HEADERS frame carried END_STREAM without END_HEADERS are recorded as outcomes; 'short-read' = base scenarios x every placement of <= 1 (thorough: <= 2) short reads (1 or 7 bytes) at every read index of either direction; 'graceful-goaway' = full product of {what makes the server send GOAWAY(NO_ERROR): http.Server.Shutdown / Server.IdleTimeout expiring} x {the request's HEADERS frame and everything after it is still unread by the server when it sends the GOAWAY, so the last-stream-id is below the request's stream / the handler is already running, the last-stream-id covers the stream} x {the request is stream 1 of a new connection / stream 3 after a completed exchange} x {no body / one-shot body (io.ReadCloser, no Request.GetBody, Close does not disturb later Reads) / the same with GetBody} x {which of the body's Read calls 0..3 (3 chunks, then EOF) is the one that returns only after the GOAWAY has reached the Transport, or none} x declared/undeclared length x trailers {0, 1; thorough: 20} x {250-byte body under a 1 MB window / 70001-byte body over a 65535-byte window, i.e. the Transport also waits for flow control}; here the client is Transport.RoundTrip with its own connection pool dialling up to 3 in-memory connections, each to a fresh Server instance with the same handler, so the Transport's retry on a new connection is inside the explored space; 'connection-window-history' = histories of sequential exchanges on ONE connection: full product of {the bytes travel in request bodies, the server's connection window is the bound (Server.MaxUploadBufferPerConnection) / in response bodies, the client's connection window} x {connection window 65535, the smallest a Server accepts; thorough: and 131071} x {k = 1..4 (thorough 8) bodies, as equal as possible} x {their total = window-1, window, window+1; response bodies also window+65535-1, +65535, +65535+1 because the Transport announces its configured window on top of the initial 65535} x {the receiver allows 1 MB frames, so each body arrives in one DATA frame / 16384} x {declared / undeclared length} x {response bodies: read by io.ReadAll / by Read calls on a 1 MB buffer, which take a whole body at once} followed by two more exchanges with a body of 1 byte (thorough: and of 21845 bytes); every body is read to the end, stream windows are large, and each exchange of the history is held to the per-exchange oracle (a request that is never delivered is the hang clause). non-trivial = the exchange completed and all request and response observations were compared; distinct = distinct frame-type traces on the wire (both directions), distinct header block lengths, distinct truncating short-read placements")
 		c.Assume("excluded from the domain: request trailers without a request body stream; handlers that answer with a status > 299 before reading the request body (the Transport then stops sending the body by documented heuristic); 204/304 with content; bodies that would need more than 4000 window refills (1-byte windows with large bodies: cost); Expect: 100-continue, CONNECT, hop-by-hop fields, gzip (DisableCompression), Transfer-Encoding, Host/Priority/Trailer/Te fields set by the application; server push; concurrent requests on one connection (see C08-C11, C15, C17); the deprecated RFC 7540 scheduler in the two situations where the server resets the stream mid-handler (C12 finding crashes the server there)")
 		c.Assume("allow-list of fields the libraries add: request User-Agent default and Content-Length (must equal the body length); response Date (any value) and Content-Length (must equal the number of bytes the handler wrote); Content-Type sniffing is avoided by always setting Content-Type; HEAD responses carry neither body nor trailers; values of one field name are compared in order, different names as a multiset; names are compared after net/http canonicalisation")
 		c.Assume("part 'graceful-goaway': oracle = every handler invocation (on whichever connection) that read a request body to a clean EOF observed exactly the request that was sent; a stream the GOAWAY covers completes with the faithful response; a stream above the last-stream-id ends in a faithful exchange on another connection or in a RoundTrip error (whether it must be retried is C18's subject, duplicates too); no hang. Not covered: GOAWAY with an error code, GOAWAY caused by a handler's 'Connection: close' (needs concurrent requests to race), client windows other than the defaults, more than one GOAWAY-struck connection per request")
+		c.Assume("part 'connection-window-history': the cumulative byte count is enumerated at the smallest connection windows only (a loss of credit per exchange that needs a history longer than k+2 exchanges or a total other than window-1/window/window+1 to stall the connection is outside the bound); bodies not read to the end by the receiver and concurrent streams sharing the connection window are C09/C10's subject")
 		c.Assume("goroutine schedules are those the Go scheduler produces with GOMAXPROCS=1 inside the bubble plus the variations induced by Early and by short reads; no preemption points inside library calls are enumerated")
 
 		dims := c14Dims(wide)
@@ -384,6 +385,101 @@ func TestVerif_C14(t *testing.T) {
 		if !c.Replaying() {
 			c.Note("short_read.max_deviations", maxDev)
 		}
+
+		// ---- histories: several exchanges on one connection whose body bytes
+		// add up to the receiver's connection window (the connection-level
+		// flow-control state is the one thing besides the HPACK tables that an
+		// exchange inherits from the exchanges before it)
+		type histCase struct {
+			Dir    string `json:"direction"` // which bodies carry the bytes: "request" (server's connection window) / "response" (client's)
+			Window int    `json:"receiver_conn_window"`
+			Frame  int    `json:"receiver_max_frame_size"`
+			Decl   bool   `json:"len_declared"`
+			K      int    `json:"bodies"` // K bodies, as equal as possible (the last takes the remainder), of Total bytes together
+			Total  int    `json:"total_bytes"`
+			Probe  int    `json:"probe_body_len"`       // then two more exchanges with a body of this length
+			Read   int    `json:"reader_buf,omitempty"` // response direction: the client's Read buffer (0: io.ReadAll's growing one)
+		}
+		vx.Enumerate(c, "connection-window-history", vx.Opts{Serial: true, Crumb: true}, func(yield func(histCase) bool) {
+			for _, win := range vx.Pick(c, []int{65535}, []int{65535, 131071}) {
+				for k := 1; k <= vx.Pick(c, 4, 8); k++ {
+					for _, total := range []int{win - 1, win, win + 1, win + 65534, win + 65535, win + 65536} {
+						for _, dir := range []string{"request", "response"} {
+							if total > win+1 && dir != "response" {
+								// the Transport announces its configured connection window
+								// as an increment on top of the protocol's initial 65535
+								// (visible on the wire), so for response bodies the totals
+								// are taken around both values
+								continue
+							}
+							for _, frame := range []int{1 << 20, 16384} {
+								for _, decl := range []bool{true, false} {
+									for _, probe := range vx.Pick(c, []int{1}, []int{1, 21845}) {
+										if !yield(histCase{dir, win, frame, decl, k, total, probe, 0}) {
+											return
+										}
+										// the request body's reader is the server's handler (io.ReadAll:
+										// what one Read takes is bounded by what has arrived); for the
+										// response body also a reader that takes a whole body at once
+										if dir == "response" && !yield(histCase{dir, win, frame, decl, k, total, probe, 1 << 20}) {
+											return
+										}
+									}
+								}
+							}
+						}
+					}
+				}
+			}
+		}, func(w *vx.W, hc histCase) {
+			x := c14Base()
+			x.ReqHdr, x.ResHdr = 0, 0
+			x.ReqDecl, x.ResDecl = hc.Decl, hc.Decl
+			other := c14Lens{0, 5} // the direction that is not under test: bodyless GET, 5-byte answer
+			switch hc.Dir {
+			case "request":
+				x.SConn, x.SFrame = int32(hc.Window), uint32(hc.Frame)
+			case "response":
+				x.Method, x.ReqDecl = "GET", true
+				x.CConn, x.CFrame, x.ResRead = hc.Window, uint32(hc.Frame), hc.Read
+				other = c14Lens{0, 0}
+			default:
+				panic("c14: unknown direction " + hc.Dir)
+			}
+			add := func(n int) {
+				l := other
+				if hc.Dir == "request" {
+					l.Req = n
+				} else {
+					l.Res = n
+				}
+				x.Seq = append(x.Seq, l)
+			}
+			for i := 0; i < hc.K; i++ {
+				n := hc.Total / hc.K
+				if i == hc.K-1 {
+					n = hc.Total - n*(hc.K-1)
+				}
+				add(n)
+			}
+			add(hc.Probe)
+			add(hc.Probe)
+			if why := c14Invalid(&x); why != "" {
+				panic("c14: history outside the domain: " + why)
+			}
+			st, ok := c14Run(w, x)
+			if !ok {
+				return
+			}
+			w.Nontrivial()
+			wire := &st.c2s
+			if hc.Dir == "response" {
+				wire = &st.s2c
+			}
+			cmp := fmt.Sprintf("=window%+d", hc.Total-hc.Window)
+			w.Outcome(fmt.Sprintf("history %s total%s largest-data-frame%s declared=%v", hc.Dir, cmp, map[bool]string{false: "<=16384", true: ">16384"}[wire.maxData > 16384], hc.Decl))
+			w.Distinct(fmt.Sprintf("hist|%s|%d|%d|%d|%v|%s|%s", hc.Dir, hc.Window, hc.K, hc.Total, hc.Decl, st.c2s.trace, st.s2c.trace))
+		})
 
 		// ---- the exchange while the server shuts the connection down gracefully
 		vx.Enumerate(c, "graceful-goaway", vx.Opts{Serial: true, Crumb: true}, func(yield func(c14ShutCase) bool) {
